@@ -47,10 +47,23 @@ func (f *Filler) cover(extra string) {
 var extremeStrings = []string{"", " ", "ünï©ødé-日本語-🔑", "quote\"back\\slash/", "line\nbreak\ttab\r", "\u0000nul\u001f", "<html>&amp;'", "  \ufeff",
 	"-12x", "1e5z", "null", "true", "{}", "[]", strings.Repeat("long", 300)}
 
+var escapeTokens = []string{"\\", "\\u0026", "\\u003c", "\\u003e", "\\u2028", "\\n", "\\\"", "\\/", "u0026", "&", "<", ">", "\"", "'", "/", "\u2028", "\u2029",
+	"\u007f", "\u0085", "\ufffd", "\b", "\f", "%", "$", "{", "}", "😀", "&amp;", "&lt;", "\\\\", "\\x", "\\u"}
+
 // String returns a unique (or extreme) string; never a pure decimal number (the JSON-variant oracle
 // of C08 recognises 64-bit integers by that shape).
 func (f *Filler) String() string {
 	if f.Rng.Float64() < f.PExtreme {
+		if f.Rng.Intn(3) == 0 {
+			// composed from the pieces text encoders treat specially: a literal backslash in front of what looks like an
+			// escape sequence, the characters HTML-safe JSON writers escape, JavaScript's line separators, controls
+			n := 2 + f.Rng.Intn(5)
+			var b strings.Builder
+			for i := 0; i < n; i++ {
+				b.WriteString(escapeTokens[f.Rng.Intn(len(escapeTokens))])
+			}
+			return b.String()
+		}
 		return extremeStrings[f.Rng.Intn(len(extremeStrings))]
 	}
 	return fmt.Sprintf("s%d", f.uniq())
